@@ -202,6 +202,11 @@ class SimLoop(asyncio.SelectorEventLoop):
                     f.get("match") and desc[0] == "bash" and f["match"] in desc[1] and not f.get("used")):
                 fault = f
                 f["used"] = True
+        # durations steered per step (directed timing shapes)
+        for pat, dur, st in SIM.cfg.get("duration_by_match", []):
+            if desc[0] == "bash" and pat in desc[1]:
+                d, at_start = dur, bool(st)
+                break
         # duration override for explicit schedules
         dd = SIM.cfg.get("sub_durations")
         if dd is not None and n - 1 < len(dd):
